@@ -81,3 +81,64 @@ func sessionLookups(c *vk.Ctx) {
 		}
 	})
 }
+
+// dispatchLookups: the handler looks MsgType up in every inbound message to choose the handlers it is offered to. In
+// these messages MsgType is not the third field (other header fields stand in front of it), and what stands in front
+// of it carries the text '35=' inside a value, a tag that ends in 35, or a value that is itself a message type.
+// The message is a TestRequest and must be served as one: one Heartbeat with its TestReqID — not a Logout or Logon.
+func dispatchLookups(c *vk.Ctx) {
+	fronts := [][]fixref.Field{
+		{fixref.F(rig.TSender, rig.PeerID), fixref.F(rig.TTarget, rig.LibID), fixref.F("115", "DESK35=5")},
+		{fixref.F(rig.TSender, rig.PeerID), fixref.F(rig.TTarget, rig.LibID), fixref.F("115", "35=5")},
+		{fixref.F(rig.TSender, rig.PeerID), fixref.F(rig.TTarget, rig.LibID), fixref.F("1135", "5")},
+		{fixref.F(rig.TSender, rig.PeerID), fixref.F(rig.TTarget, rig.LibID), fixref.F("135", "A")},
+		{fixref.F("115", "A"), fixref.F(rig.TSender, rig.PeerID), fixref.F(rig.TTarget, rig.LibID)},
+		{fixref.F("115", "5"), fixref.F(rig.TSender, rig.PeerID), fixref.F(rig.TTarget, rig.LibID)},
+		{fixref.F(rig.TSender, rig.PeerID), fixref.F(rig.TTarget, rig.LibID), fixref.F("58", "x 35=A y")},
+		{fixref.F(rig.TSender, rig.PeerID), fixref.F(rig.TTarget, rig.LibID)}, // control: nothing confusing, only the position
+	}
+	n := c.Pick(len(fronts)*4, len(fronts)*100)
+	vk.Parallel(n, 16, func(i int) {
+		front := fronts[i%len(fronts)]
+		role := rig.Role((i / len(fronts)) % 2)
+		r, err := rig.NewStepRig(rig.StepCfg{Role: role, HeartBtInt: 30, Limits: &session.IntLimits{Min: 5, Max: 60}, SentinelBarrier: true})
+		if err != nil {
+			c.Inconclusive("rig: " + err.Error())
+			return
+		}
+		defer r.Close()
+		p := rig.NewPeer()
+		if res := r.Inbound(p.Logon(30, "0")); !res.Logged {
+			c.Inconclusive("dispatch-lookup part: no logon")
+			return
+		}
+		p.Seq++
+		id := "dispatch-" + strconv.Itoa(i)
+		var mid []byte
+		for _, f := range front {
+			mid = append(mid, (f.Tag + "=" + string(f.Val) + "\x01")...)
+		}
+		mid = append(mid, ("35=1\x01" + rig.TSeq + "=" + strconv.Itoa(p.Seq) + "\x01" + rig.TTime + "=" + time.Now().UTC().Format("20060102-15:04:05.000") + "\x01" + rig.TTestReqID + "=" + id + "\x01")...)
+		msg := fixref.EncodeRaw(fixref.Std, "FIX.4.4", mid)
+		desc := fmt.Sprintf("%s: TestRequest whose MsgType field follows %v", role, front)
+		replay := map[string]interface{}{"case": desc, "message": fixref.Pretty(msg), "seed": c.Seed}
+		res := r.Inbound(msg)
+		c.Eval(vk.Hash64([]byte(desc)), true)
+		c.Count("dispatch_lookups", 1)
+		if res.TimedOut {
+			c.Inconclusive("watchdog: " + desc)
+			return
+		}
+		var ts []string
+		for _, o := range res.Outs {
+			ts = append(ts, o.Type)
+		}
+		if !res.Logged {
+			c.Violate("C18/handler/msgtype-found-inside-a-value-or-by-position", fmt.Sprintf("%s: the session is no longer logged on (answers: %v)", desc, ts), replay)
+			return
+		}
+		if len(res.Outs) != 1 || res.Outs[0].Type != "0" || fixref.GetS(res.Outs[0].Fields, rig.TTestReqID) != id {
+			c.Violate("C18/handler/msgtype-found-inside-a-value-or-by-position", fmt.Sprintf("%s: answered with %v, want the Heartbeat of a TestRequest", desc, ts), replay)
+		}
+	})
+}
